@@ -217,12 +217,14 @@ func (w *wal) flush(batch WALBatch) error {
 		tupleLen := len(tupleBuf.Bytes())
 		binary.LittleEndian.PutUint32(tupleLenBuf, uint32(tupleLen))
 
+		verifWalWrite(w, tupleLenBuf)
 		if n, err := w.reader.Write(tupleLenBuf); err != nil {
 			return err
 		} else if n != len(tupleLenBuf) {
 			panic("bytes written differs from expected buffer length")
 		}
 
+		verifWalWrite(w, tupleBuf.Bytes())
 		if n, err := w.reader.Write(tupleBuf.Bytes()); err != nil {
 			return err
 		} else if n != tupleLen {
@@ -230,12 +232,14 @@ func (w *wal) flush(batch WALBatch) error {
 		}
 
 		if w.forceSync {
+			verifWalSync(w)
 			if err := w.reader.Sync(); err != nil {
 				return err
 			}
 		}
 	}
 
+	verifWalFlushEnd(w, len(batch))
 	return nil
 }
 
